@@ -10,9 +10,13 @@ from . import common as C
 
 # concrete probe documents for the abstract ones of the specification
 DOCS = {
-    "D1": "[x]: /u 't'\n\npara *em* `c`\n\n> q\n> - li\n\n| a | b |\n|---|---|\n| 1 | 2 |\n\n```py\ncode\n```\n",
+    # every construct also occurs a second time in identical spelling (content-keyed caches), table rows with
+    # empty edge cells (the row splitter's callers trim them)
+    "D1": "[x]: /u 't'\n\npara *em* `c`\n\n> q\n> - li\n\n| a | b |\n|---|---|\n| 1 | 2 |\n|| 3 |\n|| 3 |\n| 4 ||\n\n```py\ncode\n```\n\n"
+          "para *em* `c`\n\n|| h |\n|---|---|\n|| 3 |\n",
     "D2": "use [x] and ![x] ~~s~~ \"q\" -- <b>h</b>\n\n1. one\n2. two\nlazy\n\n<div>\nraw\n</div>\n",
-    "D3": "# H [l](/a \"t\") ![i](/s)\n\nsetext\n===\n\n    code\n\n***\n\\* &amp; <http://x.y> line  \nbreak\n",
+    "D3": "# H [l](/a \"t\") ![i](/s)\n\nsetext\n===\n\n    code\n\n***\n\\* &amp; <http://x.y> line  \nbreak\n\n"
+          "# H [l](/a \"t\") ![i](/s)\n\n\\* &amp; <http://x.y> &amp; [l](/a \"t\")\n",
 }
 CHAINS = ["core", "block", "inline", "inline2"]
 TERM = ["paragraph", "reference", "blockquote", "list"]
